@@ -32,6 +32,9 @@ struct Kind {
     entry: EntryD,
     /// Some(k): the writer fails after k bytes
     fail_after: Option<usize>,
+    /// compare the bytes of this step too (false for multi-record entries written to a failing
+    /// writer: which record comes first is not defined, so only the decision is compared)
+    compare_bytes: bool,
 }
 
 fn kinds(cfg: &CfgD) -> Vec<Kind> {
@@ -66,7 +69,8 @@ fn kinds(cfg: &CfgD) -> Vec<Kind> {
     let large = valid(vec![(s("Big"), ValD::Str("x".repeat(1_300_000))), (s("M"), m(vec![Obs::U(7), Obs::U(8)], vec![]))]);
     let err_val = valid(vec![(s("M"), ValD::Error(s("value error")))]);
     let dist = valid(vec![(s("M"), m(vec![Obs::U(7), Obs::F(2.5), Obs::R(9.0, 3)], vec![])), (s("S"), ValD::Str(s("q\"")))]);
-    let k = |name, entry, fail_after| Kind { name, entry, fail_after };
+    let k = |name, entry, fail_after| Kind { name, entry, fail_after, compare_bytes: true };
+    let kd = |name, entry, fail_after| Kind { name, entry, fail_after, compare_bytes: false };
     vec![
         k("valid-scalar", scalar.clone(), None),
         k("valid-distribution", dist.clone(), None),
@@ -75,12 +79,16 @@ fn kinds(cfg: &CfgD) -> Vec<Kind> {
         k("defect-two-timestamps", two_ts, None),
         k("defect-empty-name", empty_name, None),
         k("defect-dimensions-without-split", no_split, None),
-        k("split-two-sets", split2, None),
-        k("entry-dimensions", edims, None),
+        k("split-two-sets", split2.clone(), None),
+        k("entry-dimensions", edims.clone(), None),
         k("defect-entry-dimensions-twice", edims_twice, None),
         k("unroutable-error-entry", unroutable_ts, None),
+        k("io-failure-at-0-entry-dimensions", edims.clone(), Some(0)),
+        k("io-failure-mid-record-entry-dimensions", edims.clone(), Some(70)),
+        kd("io-failure-in-second-record-of-split", split2.clone(), Some(260)),
+        k("io-failure-large", large.clone(), Some(1_100_000)),
         k("nan-only-metrics", nan_only, None),
-        k("large-1.3MB", large, None),
+        k("large-1.3MB", large.clone(), None),
         k("value-error", err_val, None),
         k("io-failure-at-0", scalar.clone(), Some(0)),
         k("io-failure-mid-record", dist, Some(60)),
@@ -167,7 +175,8 @@ fn main() {
                 st.formats += 1;
                 if pos + 1 == seq.len() {
                     st.outcomes.insert((ki, o.0.chars().take(12).collect()));
-                    if o != fresh[ki] {
+                    let differs = if ks[ki].compare_bytes { o != fresh[ki] } else { o.0 != fresh[ki].0 };
+                    if differs {
                         let prefix: Vec<&str> = seq[..pos].iter().map(|&i| ks[i].name).collect();
                         let what = if o.0 != fresh[ki].0 { "decision" } else { "records" };
                         st.v.add(
